@@ -48,7 +48,7 @@ def generate(rng, tier):
     recs = SvcRecords(sv[0])
     ext = SvcRecords({"type": T2, "name": "Ext._ipp._tcp.local.", "port": 631, "server": "ext.local.",
                       "addrs": ["10.0.0.9"], "props": {"x": "1"}})
-    for _ in range(rng.choice([3, 6, 10])):
+    for _ in range(rng.choice([3, 6, 10] + ([16, 30] if tier == "thorough" else []))):
         k = rng.random()
         if k < 0.45:
             qs = []
